@@ -1302,7 +1302,17 @@ def remove_duplicate_functions(source: str, preserve: Collection[str]) -> str:
             node_renamings[node].add(substitute)
 
     if node_renamings:
-        source = _fix_variable_names(source, node_renamings, preserve)
+        renamed_source = _fix_variable_names(source, node_renamings, preserve)
+        if delete and renamed_source != source:
+            # Renaming moves the code that comes after it, so the functions are looked up again
+            positions = {(node.lineno, node.name) for node in delete}
+            root = core.parse(renamed_source)
+            delete = {
+                node
+                for node in core.walk(root, (ast.FunctionDef, ast.AsyncFunctionDef))
+                if (node.lineno, node.name) in positions
+            }
+        source = renamed_source
     if delete:
         source = processing.remove_nodes(source, delete, root)
 
